@@ -154,7 +154,7 @@ def _transform_fn(item, spec, log, where):
                 return type(t)(_sub(x) for x in t)
             return t
         spec = dict(spec)
-        for fld in ("contract", "loops", "inserts", "body_start", "body_end"):
+        for fld in ("contract", "loops", "inserts", "body_start", "body_end", "rewrites"):
             if fld in spec:
                 spec[fld] = _sub(spec[fld])
     sig = _apply_rewrites(sig, spec.get("sig_rewrites", []), log, where + " (signature)")
